@@ -153,6 +153,20 @@ int main ()
     int bad = 0; for (int i=0;i<3;i++) { if (memcmp (&a[i].val, &b[i].val, 8) != 0 && !(a[i].val != a[i].val && b[i].val != b[i].val)) bad++;
       if (memcmp (&a[i].var, &b[i].var, 8) != 0 && !(a[i].var != a[i].var && b[i].var != b[i].var)) bad++; }
     O.put (bad); };
+  // oracle (history), circular mean: an accumulator that has already been queried is copy-assigned another accumulator (or an
+  // empty one): every query then answers for the new contents.  Output: number of differing result components (bitwise)
+  OP("o.c12.rcopy") { unsigned n1=A.nat(); unsigned n2=A.nat(); MeanRadian<double> a, b; bool fa = true, fb = true;
+    for (unsigned i=0;i<n1;i++) { ED d=rdD(A); if (fa) { a = d; fa = false; } else a += d; }
+    for (unsigned i=0;i<n2;i++) { ED d=rdD(A); if (fb) { b = d; fb = false; } else b += d; }
+    ED q0 = a.get_Estimate(); ED q1 = a.get_cos(); ED q2 = a.get_sin(); (void) q0; (void) q1; (void) q2;     // the queries before the assignment
+    a = b;
+    auto differs = [] (const ED& x, const ED& y) { int k = 0; if (memcmp (&x.val, &y.val, 8) != 0 && !(x.val != x.val && y.val != y.val)) k++;
+      if (memcmp (&x.var, &y.var, 8) != 0 && !(x.var != x.var && y.var != y.var)) k++; return k; };
+    int bad = differs (a.get_Estimate(), b.get_Estimate()) + differs (a.get_cos(), b.get_cos()) + differs (a.get_sin(), b.get_sin());
+    ED viaEstimate (a); bad += differs (viaEstimate, b.get_Estimate());
+    MeanRadian<double> c (a); bad += differs (c.get_Estimate(), b.get_Estimate());      // copy construction from the assigned accumulator
+    a += ED (0.25, 0.5); b += ED (0.25, 0.5); bad += differs (a.get_Estimate(), b.get_Estimate());
+    O.put (bad); };
   // oracle: direction of the circular mean against the weighted vector sum (weights 1/var); prints |difference| mod 2 pi
   OP("o.c12.direction") { unsigned n=A.nat(); MeanRadian<double> m; bool first = true; long double sx = 0, sy = 0;
     for (unsigned i=0;i<n;i++) { ED d=rdD(A); if (first) { m = d; first = false; } else m += d;
